@@ -60,37 +60,76 @@ Proof. destruct g, gw. cbn. now intros -> -> ->. Qed.
 Lemma eq_listZ_refl l : eq_listZ l l = true.
 Proof. induction l as [|x l IH]; [reflexivity|]. cbn [eq_listZ]. now rewrite Z.eqb_refl, IH. Qed.
 
+Lemma firstn_skipn_app {A} (a b : list A) n : length a = n -> firstn n (a ++ b) = a /\ skipn n (a ++ b) = b.
+Proof.
+  intros <-. split.
+  - rewrite firstn_app, Nat.sub_diag, firstn_all. cbn. apply app_nil_r.
+  - rewrite skipn_app, Nat.sub_diag, skipn_all. reflexivity.
+Qed.
+
+Lemma split_run recon g p inits :
+  let o := run_i recon g p inits in
+  split_obs (length (handed recon p)) (fst (fst o), snd (fst o) ++ snd o) = o.
+Proof.
+  cbv zeta. unfold split_obs, run_i. cbn [fst snd].
+  destruct (firstn_skipn_app (snd (run_b recon g p))
+              (map (fun c => container_out_e g (init_view recon c)) inits)
+              (length (handed recon p)) (run_b_length recon g p)) as [-> ->].
+  now destruct (run_b recon g p).
+Qed.
+
+Lemma run_i_sized recon g p inits :
+  let o := run_i recon g p inits in
+  length (snd (fst (fst o), snd (fst o) ++ snd o)) = (length (handed recon p) + length inits)%nat.
+Proof.
+  cbv zeta. unfold run_i. cbn [fst snd]. rewrite app_length, (run_b_length recon g p).
+  now rewrite map_length.
+Qed.
+
 Lemma wire_main_fresh inp :
   (let '(g, gw, _) := decode inp in ratio g = ratio gw) ->
-  prop_case inp (run_case inp) = 0 \/ finding_sig inp (run_case inp) = 1.
+  prop_case inp (run_case inp) = 0 \/ finding_sig inp (run_case inp) = 1 \/ finding_sig inp (run_case inp) = 2.
 Proof.
   unfold prop_case, finding_sig. rewrite eq_listZ_refl. unfold run_case.
   pose proof (decode_same_but_ratio inp) as Hd.
   destruct (decode inp) as [[g gw] cs0]. destruct Hd as [Hbe Hcfs]. intro Hr.
   assert (g = gw) by now apply cfg_eq. subst gw.
   destruct (decode_view inp) as [recon p]. cbv zeta.
-  rewrite andb_true_r, (enc_obs_sized _ _ (run_b_length recon g p)), dec_enc_obs. cbn [negb andb].
-  destruct (view_only_d10 recon g p) as [H|H]; [now left|right; now rewrite H].
+  set (inits := decode_inits inp).
+  rewrite andb_true_r, (enc_obs_sized _ _ (run_i_sized recon g p inits)), dec_enc_obs. cbn [negb].
+  pose proof (split_run recon g p inits) as Hs. cbv zeta in Hs. rewrite Hs.
+  pose proof (view_i_only recon g p inits) as Hv. cbv zeta in Hv.
+  destruct (run_i recon g p inits) as [oa ri]. cbn [fst snd] in Hv.
+  destruct Hv as [H|[H|H]]; [now left|right; left; now rewrite H|right; right].
+  rewrite H. destruct (d10_shape g (handed recon p) oa) eqn:E; [|reflexivity].
+  exfalso. unfold d10_shape, d11_shape in *.
+  apply andb_true_iff in H. destruct H as [H _]. apply andb_true_iff in H. destruct H as [H _].
+  apply andb_true_iff in E. destruct E as [E _]. apply andb_true_iff in E. destruct E as [E _].
+  rewrite H in E. discriminate.
 Qed.
 
 (* with every container recorded and the rule up to date the model passes *)
 Lemma wire_main_listed inp :
   let '(g, gw, _) := decode inp in
   let '(recon, p) := decode_view inp in
-  complete recon p = true -> ratio g = ratio gw -> prop_case inp (run_case inp) = 0.
+  complete recon p = true -> ratio g = ratio gw -> decode_inits inp = [] ->
+  prop_case inp (run_case inp) = 0.
 Proof.
   unfold prop_case, run_case.
   pose proof (decode_same_but_ratio inp) as Hd.
   destruct (decode inp) as [[g gw] cs0]. destruct Hd as [Hbe Hcfs].
   destruct (decode_view inp) as [recon p]. intros H Hr.
   assert (g = gw) by now apply cfg_eq. subst gw. cbv zeta.
-  rewrite (enc_obs_sized _ _ (run_b_length recon g p)), dec_enc_obs. cbn [negb]. now apply view_main.
+  intro Hi. rewrite Hi.
+  rewrite (enc_obs_sized _ _ (run_i_sized recon g p [])), dec_enc_obs. cbn [negb].
+  pose proof (split_run recon g p []) as Hs. cbv zeta in Hs. rewrite Hs.
+  unfold run_i. cbn [map fst snd]. now apply view_i_main.
 Qed.
 
 (* an input without the trailing amode (the format before the stored-pod widening) or with amode
    0 / 3 denotes a pod admitted by the webhook: every builder runs Model.run on the spec *)
 Lemma decode_view_synced mode q c prev k n t amode f :
-  amode <> 1 -> amode <> 2 ->
+  no_annotation amode = false -> keeps_foreign amode = false ->
   skipn (8 * Z.to_nat n) t = [] \/ skipn (8 * Z.to_nat n) t = amode :: f ->
   let inp := mode :: q :: c :: prev :: k :: n :: t in
   let cs := decode_ctrs (Z.to_nat n) t in
@@ -98,7 +137,7 @@ Lemma decode_view_synced mode q c prev k n t amode f :
   /\ forall g, run_b (fst (decode_view inp)) g (snd (decode_view inp)) = run g cs.
 Proof.
   intros H1 H2 Hs. cbv zeta. unfold decode_view.
-  destruct Hs as [-> | ->]; cbn [fst snd]; rewrite stored_synced by (try assumption; discriminate);
+  destruct Hs as [-> | ->]; cbn [fst snd]; rewrite stored_synced by (try assumption; reflexivity);
     (split; [apply handed_synced|intro g; apply view_synced]).
 Qed.
 
@@ -159,5 +198,5 @@ Qed.
 
 (* for EVERY integer input satisfying the generator's guard *)
 Lemma wire_main inp : input_guard inp = true ->
-  prop_case inp (run_case inp) = 0 \/ finding_sig inp (run_case inp) = 1.
+  prop_case inp (run_case inp) = 0 \/ finding_sig inp (run_case inp) = 1 \/ finding_sig inp (run_case inp) = 2.
 Proof. intro H. apply wire_main_fresh, guard_fresh, H. Qed.
